@@ -97,7 +97,7 @@ def make_exc(kind, tag):
 
 def plan(tier):
     if tier == 'quick':
-        return {'runs': 2400, 'wall': 300, 'batch': 4, 'shrink_s': 60, 'selfcheck': 6}
+        return {'runs': 4000, 'wall': 300, 'batch': 4, 'shrink_s': 60, 'selfcheck': 6}
     return {'runs': 400000, 'wall': 2.5 * 3600, 'batch': 8, 'shrink_s': 120, 'selfcheck': 16}
 
 
